@@ -64,6 +64,12 @@ impl V for u64 {
     }
 }
 
+impl V for Val {
+    fn to_val(&self) -> Val {
+        self.clone()
+    }
+}
+
 impl<T: V> V for &T {
     fn to_val(&self) -> Val {
         (**self).to_val()
@@ -326,6 +332,329 @@ fn eval(a: &Ast, input: Val, cx: &mut ModelCtx) -> Result<Val, Vec<String>> {
             Val::U(g) => Ok(Val::Ind(g, score_fn(&g))),
             other => Err(vec![format!("model: score of {other:?}")]),
         },
+    }
+}
+
+
+// ---------------------------------------------------------------------------
+// dynamic trees: seeded compositions of arbitrary depth. Every inner node is the REAL combinator
+// (`Then`, `And`, `Map` over Vec / pair / [_;2], `RepeatWith<N>`, `Identity`, `Constant`); the parts are
+// erased behind a harness pointer type (`HBox`) that implements the crate's `Operator<Val>` trait, so
+// trees can be built at run time. `Dyn` nodes additionally route a subtree through the crate's own
+// erased layer (`&dyn DynOperator`). The erasure keeps the error's derived `Debug` structure, which is
+// all `error_path` reads.
+
+#[derive(Serialize, Deserialize, Clone, Debug, PartialEq, Eq)]
+enum DAst {
+    P(u32),
+    Then(Box<DAst>, Box<DAst>),
+    And(Box<DAst>, Box<DAst>),
+    MapList(Box<DAst>),
+    MapPair(Box<DAst>),
+    MapArr2(Box<DAst>),
+    Repeat(Box<DAst>, usize),
+    Identity,
+    Constant(u64),
+    Dyn(Box<DAst>),
+}
+
+impl DAst {
+    fn model(&self) -> Ast {
+        match self {
+            DAst::P(id) => Ast::P(*id),
+            DAst::Then(a, b) => then(a.model(), b.model()),
+            DAst::And(a, b) => and(a.model(), b.model()),
+            DAst::MapList(f) | DAst::MapPair(f) | DAst::MapArr2(f) => map(f.model()),
+            DAst::Repeat(f, n) => rep(f.model(), *n),
+            DAst::Identity => Ast::Identity,
+            DAst::Constant(c) => Ast::Constant(*c),
+            DAst::Dyn(x) => x.model(),
+        }
+    }
+
+    fn depth(&self) -> usize {
+        match self {
+            DAst::P(_) | DAst::Identity | DAst::Constant(_) => 1,
+            DAst::Then(a, b) | DAst::And(a, b) => 1 + a.depth().max(b.depth()),
+            DAst::MapList(f) | DAst::MapPair(f) | DAst::MapArr2(f) | DAst::Repeat(f, _) | DAst::Dyn(f) => 1 + f.depth(),
+        }
+    }
+
+    fn children(&self) -> Vec<&DAst> {
+        match self {
+            DAst::P(_) | DAst::Identity | DAst::Constant(_) => Vec::new(),
+            DAst::Then(a, b) | DAst::And(a, b) => vec![a, b],
+            DAst::MapList(f) | DAst::MapPair(f) | DAst::MapArr2(f) | DAst::Repeat(f, _) | DAst::Dyn(f) => vec![f],
+        }
+    }
+}
+
+/// Harness-side error of an erased part: keeps the `Debug` structure of the error it replaced.
+struct HErr(String);
+
+impl fmt::Debug for HErr {
+    fn fmt(&self, f: &mut fmt::Formatter<'_>) -> fmt::Result {
+        f.write_str(&self.0)
+    }
+}
+
+impl fmt::Display for HErr {
+    fn fmt(&self, f: &mut fmt::Formatter<'_>) -> fmt::Result {
+        f.write_str(&self.0)
+    }
+}
+
+impl StdError for HErr {}
+
+trait HOp {
+    fn run(&self, input: Val, rng: &mut dyn RngCore) -> Result<Val, HErr>;
+}
+
+struct HBox<'a>(Box<dyn HOp + 'a>);
+
+impl Composable for HBox<'_> {}
+
+impl Operator<Val> for HBox<'_> {
+    type Output = Val;
+    type Error = HErr;
+
+    fn apply<R: Rng + ?Sized>(&self, input: Val, mut rng: &mut R) -> Result<Val, HErr> {
+        self.0.run(input, &mut rng)
+    }
+}
+
+fn herr<E: fmt::Debug>(e: E) -> HErr {
+    HErr(format!("{e:?}"))
+}
+
+struct Out<O>(O);
+
+impl<O> HOp for Out<O>
+where
+    O: Operator<Val>,
+    O::Output: V,
+    O::Error: fmt::Debug,
+{
+    fn run(&self, input: Val, rng: &mut dyn RngCore) -> Result<Val, HErr> {
+        self.0.apply(input, rng).map(|o| o.to_val()).map_err(herr)
+    }
+}
+
+struct InList<O>(O);
+
+impl<O> HOp for InList<O>
+where
+    O: Operator<Vec<Val>>,
+    O::Output: V,
+    O::Error: fmt::Debug,
+{
+    fn run(&self, input: Val, rng: &mut dyn RngCore) -> Result<Val, HErr> {
+        match input {
+            Val::List(items) => self.0.apply(items, rng).map(|o| o.to_val()).map_err(herr),
+            other => Err(HErr(format!("harness: map over Vec applied to {other:?}"))),
+        }
+    }
+}
+
+struct InPair<O>(O);
+
+impl<O> HOp for InPair<O>
+where
+    O: Operator<(Val, Val)>,
+    O::Output: V,
+    O::Error: fmt::Debug,
+{
+    fn run(&self, input: Val, rng: &mut dyn RngCore) -> Result<Val, HErr> {
+        match input {
+            Val::Pair(a, b) => self.0.apply((*a, *b), rng).map(|o| o.to_val()).map_err(herr),
+            other => Err(HErr(format!("harness: map over pair applied to {other:?}"))),
+        }
+    }
+}
+
+struct InArr2<O>(O);
+
+impl<O> HOp for InArr2<O>
+where
+    O: Operator<[Val; 2]>,
+    O::Output: V,
+    O::Error: fmt::Debug,
+{
+    fn run(&self, input: Val, rng: &mut dyn RngCore) -> Result<Val, HErr> {
+        match input {
+            Val::Arr(mut v) if v.len() == 2 => {
+                let b = v.pop().unwrap_or(Val::U(0));
+                let a = v.pop().unwrap_or(Val::U(0));
+                self.0.apply([a, b], rng).map(|o| o.to_val()).map_err(herr)
+            }
+            other => Err(HErr(format!("harness: map over [_;2] applied to {other:?}"))),
+        }
+    }
+}
+
+/// Routes the part through the crate's own erased layer.
+struct DynRoute<O>(O);
+
+impl<O> HOp for DynRoute<O>
+where
+    O: Operator<Val, Output = Val>,
+    O::Error: StdError + Send + Sync + 'static,
+{
+    fn run(&self, input: Val, rng: &mut dyn RngCore) -> Result<Val, HErr> {
+        let d: &dyn DynOperator<Val, Box<dyn StdError + Send + Sync>, Output = Val> = &self.0;
+        d.apply(input, rng).map_err(herr)
+    }
+}
+
+fn build<'a>(t: &DAst, sh: &'a Shared) -> HBox<'a> {
+    match t {
+        DAst::P(id) => HBox(Box::new(Out(Probe { id: *id, sh }))),
+        DAst::Then(a, b) => HBox(Box::new(Out(build(a, sh).then(build(b, sh))))),
+        DAst::And(a, b) => HBox(Box::new(Out(build(a, sh).and(build(b, sh))))),
+        DAst::MapList(f) => HBox(Box::new(InList(Identity.map(build(f, sh))))),
+        DAst::MapPair(f) => HBox(Box::new(InPair(Identity.map(build(f, sh))))),
+        DAst::MapArr2(f) => HBox(Box::new(InArr2(Identity.map(build(f, sh))))),
+        DAst::Repeat(f, n) => match n {
+            0 => HBox(Box::new(Out(build(f, sh).apply_n_times::<0>()))),
+            1 => HBox(Box::new(Out(build(f, sh).apply_n_times::<1>()))),
+            2 => HBox(Box::new(Out(build(f, sh).apply_twice()))),
+            3 => HBox(Box::new(Out(build(f, sh).apply_n_times::<3>()))),
+            _ => HBox(Box::new(Out(build(f, sh).apply_n_times::<4>()))),
+        },
+        DAst::Identity => HBox(Box::new(Out(Identity))),
+        DAst::Constant(c) => HBox(Box::new(Out(Constant::new(Val::U(*c))))),
+        DAst::Dyn(x) => HBox(Box::new(DynRoute(build(x, sh)))),
+    }
+}
+
+/// Container shape of a value, tracked by the generator so that `Map` nodes are only placed where
+/// the real `Map` has an implementation for the input.
+#[derive(Clone, Debug, PartialEq, Eq)]
+enum Sh {
+    U,
+    Pair(Box<Sh>, Box<Sh>),
+    Arr(usize, Box<Sh>),
+    List(Box<Sh>),
+}
+
+struct TreeGen {
+    next_id: u32,
+}
+
+impl TreeGen {
+    fn probe(&mut self) -> DAst {
+        self.next_id += 1;
+        DAst::P(self.next_id)
+    }
+
+    /// A part whose output shape does not depend on its input (usable under `Map` over a pair whose
+    /// two elements have different shapes).
+    fn agnostic(&mut self, g: &mut Xo, depth: usize) -> (DAst, Sh) {
+        if depth == 0 || g.chance(1, 3) {
+            return if g.chance(1, 6) { (DAst::Constant(g.below(1000)), Sh::U) } else { (self.probe(), Sh::U) };
+        }
+        match g.below(3) {
+            0 => {
+                let a = self.probe();
+                let (b, s) = self.gen(g, &Sh::U, depth - 1);
+                (DAst::Then(Box::new(a), Box::new(b)), s)
+            }
+            1 => {
+                let (a, sa) = self.agnostic(g, depth - 1);
+                let (b, sb) = self.agnostic(g, depth - 1);
+                (DAst::And(Box::new(a), Box::new(b)), Sh::Pair(Box::new(sa), Box::new(sb)))
+            }
+            _ => {
+                let n = g.urange(0, 3);
+                let (f, s) = self.agnostic(g, depth - 1);
+                (DAst::Repeat(Box::new(f), n), Sh::Arr(n, Box::new(s)))
+            }
+        }
+    }
+
+    fn gen(&mut self, g: &mut Xo, sh_in: &Sh, depth: usize) -> (DAst, Sh) {
+        if depth == 0 {
+            return match g.below(8) {
+                0 => (DAst::Identity, sh_in.clone()),
+                1 => (DAst::Constant(g.below(1000)), Sh::U),
+                _ => (self.probe(), Sh::U),
+            };
+        }
+        match g.below(12) {
+            0..=2 => {
+                let (a, s1) = self.gen(g, sh_in, depth - 1);
+                let (b, s2) = self.gen(g, &s1, depth - 1);
+                (DAst::Then(Box::new(a), Box::new(b)), s2)
+            }
+            3 | 4 => {
+                let (a, s1) = self.gen(g, sh_in, depth - 1);
+                let (b, s2) = self.gen(g, sh_in, depth - 1);
+                (DAst::And(Box::new(a), Box::new(b)), Sh::Pair(Box::new(s1), Box::new(s2)))
+            }
+            5..=7 => match sh_in {
+                Sh::List(e) => {
+                    let (f, so) = self.gen(g, e, depth - 1);
+                    (DAst::MapList(Box::new(f)), Sh::List(Box::new(so)))
+                }
+                Sh::Pair(a, b) if a == b => {
+                    let (f, so) = self.gen(g, a, depth - 1);
+                    (DAst::MapPair(Box::new(f)), Sh::Pair(Box::new(so.clone()), Box::new(so)))
+                }
+                Sh::Pair(..) => {
+                    let (f, so) = self.agnostic(g, depth - 1);
+                    (DAst::MapPair(Box::new(f)), Sh::Pair(Box::new(so.clone()), Box::new(so)))
+                }
+                Sh::Arr(2, e) => {
+                    let (f, so) = self.gen(g, e, depth - 1);
+                    (DAst::MapArr2(Box::new(f)), Sh::Arr(2, Box::new(so)))
+                }
+                _ => {
+                    // produce a container first, then map over it
+                    let n = 2;
+                    let (f, s) = self.gen(g, sh_in, depth - 1);
+                    let (m, so) = self.gen(g, &s, depth.saturating_sub(2));
+                    (
+                        DAst::Then(Box::new(DAst::Repeat(Box::new(f), n)), Box::new(DAst::MapArr2(Box::new(m)))),
+                        Sh::Arr(2, Box::new(so)),
+                    )
+                }
+            },
+            8 | 9 => {
+                let n = g.urange(0, 4);
+                let (f, s) = self.gen(g, sh_in, depth - 1);
+                (DAst::Repeat(Box::new(f), n), Sh::Arr(n, Box::new(s)))
+            }
+            10 => {
+                let (x, s) = self.gen(g, sh_in, depth - 1);
+                (DAst::Dyn(Box::new(x)), s)
+            }
+            _ => match g.below(4) {
+                0 => (DAst::Identity, sh_in.clone()),
+                1 => (DAst::Constant(g.below(1000)), Sh::U),
+                _ => (self.probe(), Sh::U),
+            },
+        }
+    }
+}
+
+const DYN_MAX_CALLS: usize = 48;
+
+fn in_shape(k: InKind) -> Sh {
+    match k {
+        InKind::U => Sh::U,
+        InKind::Pair => Sh::Pair(Box::new(Sh::U), Box::new(Sh::U)),
+        InKind::Arr2 => Sh::Arr(2, Box::new(Sh::U)),
+        InKind::List | InKind::Pop => Sh::List(Box::new(Sh::U)),
+    }
+}
+
+/// Number of probe calls of the fault-free run (None: the tree does not fit its input).
+fn model_calls(tree: &DAst, input: Val, rng: &SimRng) -> Option<usize> {
+    let mut cx = ModelCtx { rng: rng.fork(), log: Vec::new(), fail_at: None };
+    match eval(&tree.model(), input, &mut cx) {
+        Ok(_) => Some(cx.log.len()),
+        Err(p) if p.iter().any(|t| t.starts_with("model:")) => None,
+        Err(_) => Some(cx.log.len()),
     }
 }
 
@@ -649,6 +978,9 @@ struct Sc {
     input_seed: u64,
     list_len: usize,
     rng: RngSpec,
+    /// dynamic tree (seeded composition of arbitrary depth); `shape` is ignored when present
+    #[serde(default)]
+    tree: Option<(InKind, DAst)>,
 }
 
 struct C14 {
@@ -658,6 +990,8 @@ struct C14 {
 const MAX_FAULT: usize = 12; // every shape makes <= 11 probe calls on inputs of length <= 4
 const SEEDS_QUICK: u64 = 4_000;
 const SEEDS_THOROUGH: u64 = 400_000;
+const DYN_QUICK: u64 = 400_000;
+const DYN_THOROUGH: u64 = 40_000_000;
 
 fn make_input(seed: u64, list_len: usize) -> Input {
     let mut g = Xo::from_seed(seed);
@@ -667,6 +1001,82 @@ fn make_input(seed: u64, list_len: usize) -> Input {
         arr2: [g.next_u64(), g.next_u64()],
         list: (0..list_len).map(|_| g.next_u64()).collect(),
         pop: (0..list_len).map(|_| EcIndividual::new(g.next_u64(), g.below(5))).collect(),
+    }
+}
+
+fn shrink_tree(t: &DAst) -> Vec<DAst> {
+    let b = |x: DAst| Box::new(x);
+    let mut out = Vec::new();
+    match t {
+        DAst::P(_) | DAst::Identity | DAst::Constant(_) => {}
+        DAst::Then(x, y) | DAst::And(x, y) => {
+            let mk = |x: DAst, y: DAst| if matches!(t, DAst::Then(..)) { DAst::Then(b(x), b(y)) } else { DAst::And(b(x), b(y)) };
+            for c in x.children() {
+                out.push(mk(c.clone(), (**y).clone()));
+            }
+            for c in y.children() {
+                out.push(mk((**x).clone(), c.clone()));
+            }
+            for s in shrink_tree(x) {
+                out.push(mk(s, (**y).clone()));
+            }
+            for s in shrink_tree(y) {
+                out.push(mk((**x).clone(), s));
+            }
+        }
+        DAst::MapList(f) | DAst::MapPair(f) | DAst::MapArr2(f) | DAst::Repeat(f, _) | DAst::Dyn(f) => {
+            let mk = |x: DAst| match t {
+                DAst::MapList(_) => DAst::MapList(b(x)),
+                DAst::MapPair(_) => DAst::MapPair(b(x)),
+                DAst::MapArr2(_) => DAst::MapArr2(b(x)),
+                DAst::Repeat(_, n) => DAst::Repeat(b(x), *n),
+                _ => DAst::Dyn(b(x)),
+            };
+            for c in f.children() {
+                out.push(mk(c.clone()));
+            }
+            for s in shrink_tree(f) {
+                out.push(mk(s));
+            }
+            if let DAst::Repeat(_, n) = t {
+                if *n > 0 {
+                    out.push(DAst::Repeat(f.clone(), n - 1));
+                }
+            }
+        }
+    }
+    out.truncate(40);
+    out
+}
+
+fn gen_dynamic(g: &mut Xo) -> Sc {
+    let input_seed = g.next_u64();
+    let list_len = g.urange(0, 4);
+    let rng = RngSpec::swarm(g);
+    let kind = *g.pick(&[InKind::U, InKind::U, InKind::Pair, InKind::Arr2, InKind::List]);
+    let input = make_input(input_seed, list_len);
+    let probe_rng = rng.build();
+    let mut chosen: Option<(DAst, usize)> = None;
+    for _ in 0..8 {
+        let depth = g.urange(2, 9);
+        let mut tg = TreeGen { next_id: 0 };
+        let (tree, _) = tg.gen(g, &in_shape(kind), depth);
+        if let Some(m) = model_calls(&tree, input.val(kind), &probe_rng) {
+            if m <= DYN_MAX_CALLS {
+                chosen = Some((tree, m));
+                break;
+            }
+        }
+    }
+    let (tree, m) = chosen.unwrap_or((DAst::Then(Box::new(DAst::P(1)), Box::new(DAst::P(2))), 2));
+    let fault = if m == 0 || g.chance(1, 5) { None } else { Some(g.below(m as u64) as usize) };
+    Sc { shape: 0, fault, input_seed, list_len, rng, tree: Some((kind, tree)) }
+}
+
+impl C14 {
+    fn static_runs(&self, tier: Tier) -> u64 {
+        let per = (self.shapes.len() * (MAX_FAULT + 1)) as u64;
+        per * if tier == Tier::Quick { SEEDS_QUICK } else { SEEDS_THOROUGH }
     }
 }
 
@@ -687,18 +1097,25 @@ impl Check for C14 {
              Mutate, Recombine, Select by value and by reference / GenomeExtractor / GenomeScorer via wrap) of logging probe operators, each \
              shape x every fault position 'probe call k fails' for k = none, 0..{} x seeded inputs and streams (Vec inputs of length 0-4). The \
              model interpreter predicts log (probe id, input fingerprint, word drawn), output, draw count / next word and the error path. \
-             Non-trivial iff a fault actually fired or >= 2 probe calls ran; distinct = (shape, fault position, input length) cells",
+             Plus seeded DYNAMIC TREES: compositions of depth 2..=10 (<= {} probe calls) generated at run time, every inner node the real \
+             Then / And / Map (Vec, pair, [_;2]) / RepeatWith<0..=4> / Identity / Constant, parts erased behind a harness pointer that \
+             implements Operator<Val> (some subtrees additionally routed through the crate's &dyn DynOperator), fault position drawn \
+             uniformly from the fault-free call count. \
+             Non-trivial iff a fault actually fired or >= 2 probe calls ran; distinct = (shape or tree, fault position, input length) cells",
             self.shapes.len(),
-            MAX_FAULT - 1
+            MAX_FAULT - 1,
+            DYN_MAX_CALLS
         )
     }
 
     fn runs(&self, tier: Tier) -> u64 {
-        let per = (self.shapes.len() * (MAX_FAULT + 1)) as u64;
-        per * if tier == Tier::Quick { SEEDS_QUICK } else { SEEDS_THOROUGH }
+        self.static_runs(tier) + if tier == Tier::Quick { DYN_QUICK } else { DYN_THOROUGH }
     }
 
-    fn generate(&self, g: &mut Xo, _tier: Tier, run: u64) -> Sc {
+    fn generate(&self, g: &mut Xo, tier: Tier, run: u64) -> Sc {
+        if run >= self.static_runs(tier) {
+            return gen_dynamic(g);
+        }
         let per = (self.shapes.len() * (MAX_FAULT + 1)) as u64;
         let cell = (run % per) as usize;
         let shape = cell / (MAX_FAULT + 1);
@@ -709,19 +1126,43 @@ impl Check for C14 {
             input_seed: g.next_u64(),
             list_len: g.urange(0, 4),
             rng: RngSpec::swarm(g),
+            tree: None,
         }
     }
 
     fn execute(&self, sc: &Sc, obs: &mut Obs) -> Vec<Violation> {
-        let Some(shape) = self.shapes.get(sc.shape) else { return Vec::new() };
         let input = make_input(sc.input_seed, sc.list_len);
         let mut real_rng = sc.rng.build();
         let mut cx = ModelCtx { rng: real_rng.fork(), log: Vec::new(), fail_at: sc.fault };
-        let expected = eval(&shape.ast, input.val(shape.input), &mut cx);
         let sh = Shared { log: RefCell::new(Vec::new()), fail_at: sc.fault };
-        let got = catch(|| (shape.run)(&sh, &input, &mut real_rng));
+        let (name, expected, got): (String, _, _) = if let Some((kind, tree)) = &sc.tree {
+            let expected = eval(&tree.model(), input.val(*kind), &mut cx);
+            if let Err(p) = &expected {
+                if p.iter().any(|t| t.starts_with("model:")) {
+                    return Vec::new(); // (a shrink candidate whose tree does not fit its input)
+                }
+            }
+            obs.hit("probe.dynamic-tree");
+            obs.count("probe.dynamic-tree-depth-sum", tree.depth() as u64);
+            if tree.depth() >= 6 {
+                obs.hit("probe.dynamic-tree-depth>=6");
+            }
+            let got = catch(|| {
+                let op = build(tree, &sh);
+                match op.apply(input.val(*kind), &mut real_rng) {
+                    Ok(o) => Ok(o),
+                    Err(e) => Err(error_path(&e)),
+                }
+            });
+            ("dyn-tree".to_string(), expected, got)
+        } else {
+            let Some(shape) = self.shapes.get(sc.shape) else { return Vec::new() };
+            let expected = eval(&shape.ast, input.val(shape.input), &mut cx);
+            let got = catch(|| (shape.run)(&sh, &input, &mut real_rng));
+            (shape.name.to_string(), expected, got)
+        };
         let mut v = Vec::new();
-        let name = shape.name;
+        let name = name.as_str();
         let key = |c: &str| format!("{c}:{name}");
         let got = match got {
             Ok(g) => g,
@@ -741,7 +1182,12 @@ impl Check for C14 {
         if fired {
             obs.hit("fault.component-fail");
         }
-        let cfg = format!("{name}, fault at probe call {:?}, Vec input length {}", sc.fault, sc.list_len);
+        let cfg = match &sc.tree {
+            Some((kind, tree)) => {
+                format!("tree {tree:?} on input {kind:?}, fault at probe call {:?}, Vec input length {}", sc.fault, sc.list_len)
+            }
+            None => format!("{name}, fault at probe call {:?}, Vec input length {}", sc.fault, sc.list_len),
+        };
         if log != cx.log {
             let first = log.iter().zip(&cx.log).position(|(a, b)| a != b).unwrap_or(log.len().min(cx.log.len()));
             let clause = if log.len() > cx.log.len() && fired { "stops-at-first-failure" } else { "parts-run-in-order-on-the-right-input" };
@@ -799,13 +1245,32 @@ impl Check for C14 {
             )),
         }
         if fired || cx.log.len() >= 2 {
-            obs.nontrivial(mix(mix(mix(7, sc.shape as u64), sc.fault.map_or(99, |k| k as u64)), sc.list_len as u64));
+            let shape_fp = match &sc.tree {
+                Some((kind, tree)) => simcore::fnv1a(format!("{kind:?}{tree:?}").as_bytes()),
+                None => sc.shape as u64,
+            };
+            obs.nontrivial(mix(mix(mix(7, shape_fp), sc.fault.map_or(99, |k| k as u64)), sc.list_len as u64));
         }
         v
     }
 
     fn shrink(&self, sc: &Sc) -> Vec<Sc> {
         let mut out = Vec::new();
+        if let Some((kind, tree)) = &sc.tree {
+            // replace the tree by one of its parts, or a part by one of its own parts (candidates that
+            // do not fit the input are recognised by the model and ignored)
+            for c in tree.children() {
+                out.push(Sc { tree: Some((*kind, c.clone())), ..sc.clone() });
+            }
+            for t in shrink_tree(tree) {
+                out.push(Sc { tree: Some((*kind, t)), ..sc.clone() });
+            }
+            if let Some(k) = sc.fault {
+                if k > 0 {
+                    out.push(Sc { fault: Some(k - 1), ..sc.clone() });
+                }
+            }
+        }
         if sc.list_len > 0 {
             out.push(Sc { list_len: sc.list_len - 1, ..sc.clone() });
         }
@@ -834,6 +1299,9 @@ impl Check for C14 {
         let mut m = serde_json::Map::new();
         m.insert("shapes".into(), serde_json::json!(self.shapes.iter().map(|s| s.name).collect::<Vec<_>>()));
         m.insert("fault_positions_per_shape".into(), serde_json::json!(MAX_FAULT + 1));
+        m.insert("dynamic_tree_runs".into(), serde_json::json!(if tier == Tier::Quick { DYN_QUICK } else { DYN_THOROUGH }));
+        let mut g = Xo::from_seed(1);
+        m.insert("dynamic_tree_samples".into(), serde_json::json!((0..3).map(|_| format!("{:?}", gen_dynamic(&mut g).tree)).collect::<Vec<_>>()));
         m.insert(
             "seeds_per_cell".into(),
             serde_json::json!(if tier == Tier::Quick { SEEDS_QUICK } else { SEEDS_THOROUGH }),
@@ -846,6 +1314,7 @@ impl Check for C14 {
             "the composition-AST interpreter in c14.rs is the intended meaning of 'then / and / map / repetition'".into(),
             "the combinators' error types live in private modules: the failing part / element is read from the derived Debug structure of the error value (First / Second / MapError(inner, index)), not from message wording".into(),
             "RepeatWith passes the inner error through unchanged (its Error type is the inner operator's)".into(),
+            "dynamic trees: the harness' own type erasure (HBox) forwards every rng method 1:1 and keeps the Debug structure of the error it replaces".into(),
         ]
     }
 
